@@ -2,9 +2,9 @@ package main
 
 import (
 	"fmt"
-	"os"
 	"go/constant"
 	"go/types"
+	"os"
 	"sort"
 	"strings"
 	"sync"
@@ -55,32 +55,33 @@ type Exec struct {
 	cfg    *RunCfg
 	work   []*State
 	// statistics
-	paths      int
-	pathsByEnd map[string]int
-	branches   int
-	forks      int
-	instrs     int64
-	fnEntered  map[string]int
-	violations []*Violation
-	asserts    map[string]*AssertSite
-	incon      []string // reasons the run is inconclusive
-	samples    []PathSample
-	deadline   time.Time
-	domPrunes  int
-	modelHits  int
-	queriesBr  int
-	curHarness string
-	params     map[string]int
-	passModels []PassModel
-	accessAll  map[string]*AccessSummary
-	blockSites map[string]int
-	qcache     map[string]qres
-	qcacheHits int
-	ifConverted int
-	forkSites   map[string]int
-	lenient    bool
-	initDone   map[string]bool
-	initLog    *[]string
+	paths          int
+	pathsByEnd     map[string]int
+	branches       int
+	forks          int
+	instrs         int64
+	fnEntered      map[string]int
+	violations     []*Violation
+	asserts        map[string]*AssertSite
+	incon          []string // reasons the run is inconclusive
+	samples        []PathSample
+	deadline       time.Time
+	domPrunes      int
+	jointDecisions int
+	modelHits      int
+	queriesBr      int
+	curHarness     string
+	params         map[string]int
+	passModels     []PassModel
+	accessAll      map[string]*AccessSummary
+	blockSites     map[string]int
+	qcache         map[string]qres
+	qcacheHits     int
+	ifConverted    int
+	forkSites      map[string]int
+	lenient        bool
+	initDone       map[string]bool
+	initLog        *[]string
 }
 
 type AccessSummary struct {
